@@ -534,6 +534,32 @@ Section Oracles.
           rewrite bytes_eqb_refl; reflexivity.
       + destruct (produce_unusable_is_error o s Hu) as (e & ->). reflexivity.
   Qed.
+  (* a history on one codec value: as many answers as calls, the k-th answer is the answer of the k-th call alone
+     under the options the value was built with (in particular the skipped-lines count is the same for every call),
+     and every answer satisfies the single-call predicate of the check *)
+  Lemma consume_history_pointwise o l :
+    length (consume_history parse render o l) = length l /\
+    (forall k x, nth_error l k = Some x ->
+       nth_error (consume_history parse render o l) k = Some (consume parse render o (fst x) (snd x))) /\
+    (forall k x, nth_error l k = Some x ->
+       consume_ok parse render o (fst x) (snd x) (consume parse render o (fst x) (snd x)) true RNone = true).
+  Proof.
+    unfold consume_history. split; [apply map_length|]. split.
+    - intros k x Hk. rewrite nth_error_map, Hk. reflexivity.
+    - intros k x _. apply consume_meets_check_predicate.
+  Qed.
+
+  Lemma produce_history_pointwise o l :
+    length (produce_history parse render o l) = length l /\
+    (forall k s, nth_error l k = Some s ->
+       nth_error (produce_history parse render o l) k = Some (produce parse render o s)) /\
+    (forall k s, nth_error l k = Some s ->
+       produce_ok parse render o s (produce parse render o s) RNone = true).
+  Proof.
+    unfold produce_history. split; [apply map_length|]. split.
+    - intros k s Hk. rewrite nth_error_map, Hk. reflexivity.
+    - intros k s _. apply produce_meets_check_predicate.
+  Qed.
 End Oracles.
 
 (* ---------- aliasing ---------- *)
